@@ -2,6 +2,7 @@ package props
 
 import (
 	"encoding/json"
+	"strings"
 	"testing"
 
 	"github.com/db47h/decimal"
@@ -502,6 +503,11 @@ func c01ExecOps(c C01Case) (z, xo, yo *decimal.Decimal) {
 }
 
 func checkC01(c C01Case, o *h.Obs) *h.Fail {
+	if c.Op == "grid:periodic-quotients" {
+		// replay of a failure of the enumerated part
+		o.Label(c.Op)
+		return c01PeriodicQuotients()
+	}
 	if c.P == 0 && c.Op != "setprec" {
 		return h.Failf("bad-case", "precision 0")
 	}
@@ -610,4 +616,77 @@ func TestC01Grid(t *testing.T) {
 		n++
 	}
 	h.AddExtra("C01", "huge_gap_cases_enumerated", n)
+	if f := c01PeriodicQuotients(); f != nil {
+		h.ReportGridFail(t, "C01", f, []byte(`{"op":"grid:periodic-quotients"}`))
+	}
+}
+
+// c01PeriodicQuotients: quotients of more than 2^20 words (twenty million digits; 2^21 words in the thorough tier)
+// by a one-word divisor, a size class the random search cannot afford with a big-integer oracle. The expected digits
+// are periodic and are compared word by word: 0.99..9 (76000 nines) / 3 = 0.33..3 exactly, then 1/3, 2/3 and 1/7 into
+// the same receiver (so that buffers, pooled or not, are reused after a longer dividend), ToZero and AwayFromZero.
+func c01PeriodicQuotients() *h.Fail {
+	sizes := []int{1<<20 + 2}
+	if h.Thorough() {
+		sizes = append(sizes, 1<<21+1)
+	}
+	n := 0
+	for _, words := range sizes {
+		prec := uint(words * h.DW)
+		z := mkRecv(prec, uint8(model.ToZero))
+		three := new(decimal.Decimal).SetInt64(3)
+		seven := new(decimal.Decimal).SetInt64(7)
+		one := new(decimal.Decimal).SetInt64(1)
+		two := new(decimal.Decimal).SetInt64(2)
+		nines := h.Spec{F: "f", D: strings.Repeat("9", 4000*h.DW), E: 0, P: 4000 * h.DW}.Build()
+		// expect: digit k (0-based from the top) of the stored mantissa, for k < nd; all further digits zero
+		check := func(what string, nd int, digit func(k int) byte, lastUp bool, acc decimal.Accuracy, exp int) *h.Fail {
+			n++
+			mant, e := z.BitsExp()
+			if int64(e) != int64(exp) || z.Acc() != acc || z.Signbit() {
+				return h.Failf("value", "%s at %d digits: exponent %d accuracy %v, want %d %v", what, prec, e, z.Acc(), exp, acc)
+			}
+			nw := (nd + h.DW - 1) / h.DW
+			if len(mant) < nw || len(mant) > words {
+				return h.Failf("value", "%s at %d digits: mantissa of %d words, want %d..%d", what, prec, len(mant), nw, words)
+			}
+			for i := 0; i < len(mant); i++ { // i-th word from the top
+				var w uint64
+				for j := 0; j < h.DW; j++ {
+					k := i*h.DW + j
+					d := byte(0)
+					if k < nd {
+						d = digit(k)
+						if lastUp && k == nd-1 {
+							d++
+						}
+					}
+					w = w*10 + uint64(d)
+				}
+				if got := uint64(mant[len(mant)-1-i]); got != w {
+					return h.Failf("value", "%s at %d digits: word %d from the top is %019d, want %019d", what, prec, i, got, w)
+				}
+			}
+			return nil
+		}
+		z.Quo(nines, three)
+		if f := check("0.99..9(76000 nines)/3", 4000*h.DW, func(int) byte { return 3 }, false, decimal.Exact, 0); f != nil {
+			return f
+		}
+		z.Quo(one, three)
+		if f := check("1/3 ToZero", int(prec), func(int) byte { return 3 }, false, decimal.Below, 0); f != nil {
+			return f
+		}
+		z.SetMode(decimal.AwayFromZero).Quo(two, three)
+		if f := check("2/3 AwayFromZero", int(prec), func(int) byte { return 6 }, true, decimal.Above, 0); f != nil {
+			return f
+		}
+		z.Quo(nines, seven) // dirty every buffer again with an unrelated long dividend
+		z.SetMode(decimal.ToZero).Quo(one, seven)
+		if f := check("1/7 ToZero", int(prec), func(k int) byte { return "142857"[k%6] - '0' }, false, decimal.Below, 0); f != nil {
+			return f
+		}
+	}
+	h.AddExtra("C01", "periodic_quotients_checked", n)
+	return nil
 }
